@@ -44,11 +44,6 @@ namespace OVM.Ascii
 theorem write_pending_refused (m : MeshView) (h : m.needsGC = true) : write m = none := by
   simp [write, h]
 
-theorem parse_of_readAll (cfg : Cfg) (input : Str) (st : RS) (h : readAll cfg input = st) (he : st.err = none) :
-    (parse cfg input).res = .ok st.file := by
-  unfold parse
-  simp only [h, he]
-
 -- the reader is never evaluated on symbolic input below (projections of `parse …` would otherwise be
 -- unfolded by the unifier)
 attribute [local irreducible] readAll
@@ -60,14 +55,6 @@ theorem roundtrip_props (cfg : Cfg) (F : AFile) (hwf : WFTopo cfg.lim F) (hacc :
     (hp : WFProps cfg.lim F) : (parse cfg (print F)).res = .ok (sortProps F) := by
   obtain ⟨st, h1, h2, h3⟩ := readAll_print cfg F hwf hacc hp
   rw [parse_of_readAll cfg _ st h1 h2, h3]
-
-theorem sortProps_noProps (F : AFile) (hp : F.props = []) : sortProps F = F := by
-  cases F
-  simp only at hp
-  simp [sortProps, sortedProps, propsOf, hp, Ent.all]
-
-theorem wfProps_nil (lim : Nat) (F : AFile) (hp : F.props = []) : WFProps lim F :=
-  ⟨fun p h => by rw [hp] at h; simp at h, by rw [hp]; exact List.Pairwise.nil⟩
 
 /-- **C06 (topology)**: a file without property blocks reads back as itself. -/
 theorem roundtrip_topology (cfg : Cfg) (F : AFile) (hp : F.props = []) (hwf : WFTopo cfg.lim F)
@@ -83,7 +70,6 @@ theorem roundtrip_props_set (cfg : Cfg) (F : AFile) (hwf : WFTopo cfg.lim F) (ha
       ∀ k, propsOf G k = propsOf F k :=
   ⟨sortProps F, roundtrip_props cfg F hwf hacc hp, rfl, rfl, rfl, rfl, fun _ => mem_sortedProps,
     by
-      have h1 := sortedProps_pairwise F hp.keys
       show (sortedProps F).length = F.props.length
       simp only [sortedProps, propsOf, List.length_flatMap, Ent.all, List.map_cons, List.map_nil, List.sum_cons,
         List.sum_nil]
@@ -189,18 +175,6 @@ theorem tet_accepts_poly0 (chk : Bool) : Accepts (cfgPoly chk) (tetFile []) := b
 theorem tet_accepts_poly (chk : Bool) (ps : List PropRec) : Accepts (cfgPoly chk) (tetFile ps) :=
   ⟨(tet_accepts_poly0 chk).faces, (tet_accepts_poly0 chk).cells⟩
 
-theorem wfProp_of_dec (lim : Nat) (F : AFile) (p : PropRec) (h1 : p.ty ∈ regTypes)
-    (h2 : p.name.getLast? ≠ none ∧ p.name.getLast? ≠ some cQuote) (h3 : ∀ c ∈ p.name, c ≠ cNL)
-    (h4 : p.vals.length = F.count p.ent) (h5 : ∀ v ∈ p.vals, WFVal lim p.ty v)
-    (h6 : isPosKey p.ent p.ty p.name = true → p.vals = F.verts.map valOfPos) : WFProp lim F p := by
-  refine ⟨h1, ?_, h3, h4, h5, h6⟩
-  rcases List.eq_nil_or_concat p.name with h | ⟨init, z, h⟩
-  · rw [h] at h2; exact absurd rfl h2.1
-  · refine ⟨init, z, by simpa using h, ?_⟩
-    intro hz
-    apply h2.2
-    rw [h, hz]; simp
-
 theorem tet_wfProps : WFProps 1000 (tetFile tetProps) := by
   refine ⟨?_, by decide⟩
   intro p hp
@@ -224,6 +198,19 @@ example (chk : Bool) : (parse (cfgPoly chk) (print (tetFile []))).res = .ok (tet
   roundtrip_topology _ _ rfl (tet_wfTopo _) (tet_accepts_poly _ _)
 
 example : write ⟨tetFile tetProps, true⟩ = none := write_pending_refused _ rfl
+
+example : ∃ text, write ⟨tetFile tetProps, false⟩ = some text ∧
+    (parse (cfgTet true) text).res = .ok (sortProps (tetFile tetProps)) :=
+  (write_roundtrip (cfgTet true) ⟨tetFile tetProps, false⟩ (tet_wfTopo _) (tet_accepts _ _) tet_wfProps).2 rfl
+
+/-- `accepts_poly_nochk` gives `Accepts` without evaluating the kernel's decision -/
+example : Accepts (cfgPoly false) (tetFile tetProps) := accepts_poly_nochk _ _ rfl rfl (tet_wfTopo _)
+
+example : ∃ G, (parse (cfgPoly false) (print (tetFile tetProps))).res = .ok G ∧ G.cells = [[1, 2, 4, 6]] ∧
+    G.props.length = 7 := by
+  obtain ⟨G, h1, _, _, _, h5, _, h7, _⟩ := roundtrip_props_set (cfgPoly false) (tetFile tetProps) (tet_wfTopo _)
+    (accepts_poly_nochk _ _ rfl rfl (tet_wfTopo _)) tet_wfProps
+  exact ⟨G, h1, h5, h7⟩
 
 /-- the tetrahedron is detected as a tetrahedral and not as a hexahedral mesh -/
 example : detect 4 (print (tetFile tetProps)) = true ∧ detect 6 (print (tetFile tetProps)) = false := by
